@@ -1041,6 +1041,25 @@ def main(replay=None):
                       % (a, b, v, w, a, a, b, b))
                 # inside `with a`: gq was written to b, gr to a
                 fixed.append((t2, "M<[,%d]>" % w, "M<[-1,%d,%d,-1]>" % (w, v)))
+        # a global is found exactly in the namespace that holds it, whatever kind of value it holds (number, string, array, code, boolean,
+        # hashmap, namespace): defined in a (through with-do, setVariable or - for missionNamespace - at top level), read in b
+        VALS = ["7", '"s"', "[1]", "{ 7 }", "true", "createHashMap", "uiNamespace", "{ }", "[{ 1 }]"]
+        nv_ = 0
+        for a in ALLNS:
+            for b in ALLNS:
+                for how in ("with", "setvar", "top"):
+                    if how == "top" and a != "missionNamespace":
+                        continue
+                    nv_ += 1
+                    vals = VALS if thorough else [VALS[(nv_ + k) % len(VALS)] for k in (0, 3, 4)] + ["{ 7 }"]
+                    for v in vals:
+                        df = {"with": "with %s do { gQ = %s }" % (a, v), "setvar": '%s setVariable ["Gq", %s]' % (a, v), "top": "gq = %s" % v}[how]
+                        t = ('%s; with %s do { diag_log [isNil "gq", isNil { gQ }, isNil { call { Gq } }, isNil { %s getVariable "gq" }, '
+                             'isNil { currentNamespace getVariable "GQ" }, { isNil "gq" } forEach [1]] }; '
+                             'diag_log [isNil "gq"]; 0' % (df, b, b))
+                        e1 = "true" if a != b else "false"
+                        e2 = "true" if a != "missionNamespace" else "false"
+                        fixed.append((t, "M<[%s]>" % ",".join([e1] * 6), "M<[%s]>" % e2))
         il = ["0;0;10000\t%s" % M.hexs(t) for t in vt + [f[0] for f in fixed]]
         rc_, iout, err_ = V.run_lines_parallel([himpl], il, timeout=3000)
         for (kind, d, x), io in zip(vmeta, iout):
